@@ -198,6 +198,88 @@ def check(ctx):
                     if dst and sw and dst < sw and dst < 32 and any(C.callee(c) in SIZE_FUNCS[:2] for c in C.calls(src_)):
                         r4.fail('%s: implicit %d->%d bit cast' % (fn, sw, dst), rel, tu.line(n), 'size returned by %s is narrowed: %s' % (SIZE_FUNCS[:2], tu.text_of(n)[:80]))
 
+    # byte offsets into the typelib are never narrowed below 32 bits (count * blob size exceeds 16 bits for large namespaces)
+    OFFSETISH = re.compile(r'_blob_size$|^directory$|^size$|offset|^sections$|^attributes$|^annotations$')
+    n_casts = 0
+    for fn, f in sorted(tl.functions.items()):
+        if not tl.in_main_file(f) or tl.body(f) is None:
+            continue
+        for n in C.walk(tl.body(f)):
+            if n.get('kind') in ('ImplicitCastExpr', 'CStyleCastExpr') and n.get('castKind') == 'IntegralCast':
+                dst = int_width(n.get('type', {}).get('qualType')) or int_width(n.get('type', {}).get('desugaredQualType'))
+                src_ = C.kids(n)[-1]
+                sw = int_width(src_.get('type', {}).get('qualType')) or int_width(src_.get('type', {}).get('desugaredQualType'))
+                if not (dst and sw):
+                    continue
+                arith = [x for x in C.walk(src_) if x.get('kind') == 'BinaryOperator' and x.get('opcode') in ('*', '+', '<<')]
+                hm = [x.get('name') for x in C.walk(src_) if x.get('kind') == 'MemberExpr' and C.base_record_type(x) == 'Header' and OFFSETISH.search(x.get('name') or '')]
+                if not (arith and hm):
+                    continue
+                n_casts += 1
+                r4.check(not (dst < sw and dst < 32), '%s: offset arithmetic on Header.%s kept in >= 32 bits' % (fn, '/'.join(sorted(set(hm)))), TL, tl.line(n),
+                         'a byte offset computed from Header.%s is narrowed from %d to %d bits (`%s`): beyond 65535 bytes - about 5500 directory entries - the lookup '
+                         'lands on another entry' % ('/'.join(sorted(set(hm))), sw, dst, tl.text_of(n)[:80]), detail={'from': sw, 'to': dst})
+
+    # ------------------------------------------------------------------ R6 every blob kind written with a GType name is searchable by it
+    r6 = ctx.rule('R6', 'lookup by GType name considers every blob kind the compiler writes with a gtype_name (writer cases of girnode.c vs the kind filter of the lookup)', floor=6)
+    gn = ctx.c.tu('girepository/girnode.c')
+    bt = gn.func('_g_ir_node_build_typelib')
+    written = {}
+    for sw in C.walk(gn.body(bt)):
+        if sw.get('kind') != 'SwitchStmt' or not re.search(r'node->type$', re.sub(r'\s', '', gn.text_of(C.kids(sw)[0]))):
+            continue
+        for labels, stmts in C.switch_cases(gn, sw):
+            kinds, named = set(), False
+            for st in stmts:
+                for l, r, a_ in C.assignments(st):
+                    mp = C.member_path(l) or ''
+                    if mp.endswith('->blob_type'):
+                        kinds |= set(x['referencedDecl']['name'] for x in C.walk(r) if x.get('kind') == 'DeclRefExpr' and x.get('referencedDecl', {}).get('kind') == 'EnumConstantDecl')
+                    elif mp.endswith('->gtype_name') and C.int_value(r) != 0:
+                        named = True
+            if named:
+                for k_ in kinds:
+                    written[k_] = labels
+    if len(written) < 5:
+        raise AnalysisError('girnode.c: blob kinds written with a gtype_name not recognised: %s' % sorted(written))
+    # enumerator values
+    evals = {}
+    for d in tl.root.get('inner', []):
+        if d.get('kind') == 'EnumDecl' and any(c.get('name') == 'BLOB_TYPE_STRUCT' for c in d.get('inner', [])):
+            v = -1
+            for c in d.get('inner', []):
+                if c.get('kind') == 'EnumConstantDecl':
+                    iv = [C.int_value(x) for x in C.kids(c)]
+                    v = iv[0] if iv and iv[0] is not None else v + 1
+                    evals[c['name']] = v
+    if 'BLOB_TYPE_STRUCT' not in evals:
+        raise AnalysisError('GTypelibBlobType enumerators not found')
+    LG = cgsa.summarise(ctx, TL, 'g_typelib_get_dir_entry_by_gtype_name')
+    hits = [e for e in gsa.find(LG, 'return') if e.value not in ('0', 'NULL') and e.fn == 'g_typelib_get_dir_entry_by_gtype_name']
+    KIND = re.compile(r'^(?:(.*->blob_type) (==|<) (BLOB_TYPE_\w+)|(BLOB_TYPE_\w+) (<) (.*->blob_type))$')
+    REVIEWED = {'BLOB_TYPE_BOXED': 'never accepted by the lookup in this code base (StructBlob written for <glib:boxed>); candidate defect, not confirmable here: no C build'}
+    for kind_ in sorted(written):
+        val = {}
+        for a_ in LG.atoms():
+            m_ = KIND.match(a_)
+            if not m_:
+                continue
+            if m_.group(1):
+                other = evals.get(m_.group(3))
+                if other is not None:
+                    val[a_] = (evals[kind_] == other) if m_.group(2) == '==' else (evals[kind_] < other)
+            else:
+                other = evals.get(m_.group(4))
+                if other is not None:
+                    val[a_] = other < evals[kind_]
+        found = any(gsa.can_hold(e.cond, val) for e in hits)
+        if kind_ in REVIEWED and not found:
+            ctx.notes.append('R6: %s not searchable by GType name: %s' % (kind_, REVIEWED[kind_]))
+            continue
+        r6.check(found, '%s entries can be found by GType name' % kind_, TL, hits[0].line if hits else 1,
+                 'the compiler writes %s blobs with a gtype_name (girnode.c case %s) but g_typelib_get_dir_entry_by_gtype_name skips entries of that kind: such a registered '
+                 'type is never found by its GType name' % (kind_, '/'.join(written[kind_])), detail=sorted(k for k, v in val.items() if v))
+
     # ------------------------------------------------------------------ R5 repository level
     r5 = ctx.rule('R5', 'repository finders use the typelib lookups; negative GType cache cleared on every registration', floor=4)
     def reach(start):
@@ -217,6 +299,30 @@ def check(ctx):
         f = gr.func(fn)
         users = [g_ for g_ in sorted(reach(fn)) if C.calls(gr.body(gr.functions[g_]), callee_)]
         r5.check(bool(users), '%s -> %s' % (fn, callee_), GR, gr.line(f), '%s no longer reaches %s: the repository-level lookup can disagree with the typelib-level one' % (fn, callee_), detail=users)
+    # a GType is declared unknown only after BOTH tables were searched without the C-prefix shortcut
+    helpers = [g_ for g_ in sorted(reach('g_irepository_find_by_gtype')) if g_ != 'g_irepository_find_by_gtype' and C.calls(gr.body(gr.functions[g_]), 'g_typelib_get_dir_entry_by_gtype_name')]
+    if len(helpers) != 1:
+        raise AnalysisError('g_irepository_find_by_gtype: per-table search helper not recognised (%s)' % helpers)
+    hp = gr.params(gr.functions[helpers[0]])
+    flag_i = [i for i, p_ in enumerate(hp) if (p_.get('type', {}).get('qualType') or '') == 'gboolean']
+    if len(flag_i) != 1:
+        raise AnalysisError('%s: prefix-check flag parameter not recognised' % helpers[0])
+    FG = cgsa.summarise(ctx, GR, 'g_irepository_find_by_gtype', opaque=set(helpers) | {'get_repository'})
+    neg_cache = [e for e in gsa.find(FG, 'call', r'^g_hash_table_(add|insert)$') if e.args and 'unknown_gtypes' in e.args[0]]
+    if not neg_cache:
+        raise AnalysisError('g_irepository_find_by_gtype: negative cache insertion not found')
+    searched = {}
+    for e in gsa.find(FG, 'call', r'^%s$' % re.escape(helpers[0])):
+        if e.args and len(e.args) > flag_i[0]:
+            searched.setdefault(e.args[0], set()).add(e.args[flag_i[0]])
+    for tbl_, flags_ in sorted(searched.items()):
+        full = [a_ for a_ in FG.atoms() if a_.startswith('%s(%s,' % (helpers[0], tbl_)) and a_.endswith(',0)')]
+        okf = bool(full) and all(not gsa.can_hold(e.cond, {full[0]: True}) for e in neg_cache) and '0' in flags_
+        r5.check(okf, 'unknown only after an unprefixed search of %s' % tbl_.split('->')[-1], GR, neg_cache[0].line,
+                 'the GType is cached as unknown although %s was only searched with the C-prefix shortcut (flags %s): a type whose library declares another C prefix is '
+                 'found by g_typelib_get_dir_entry_by_gtype_name but not by g_irepository_find_by_gtype' % (tbl_.split('->')[-1], sorted(flags_)), detail=sorted(flags_))
+    if len(searched) < 2:
+        r5.fail('both typelib tables searched', GR, gr.line(gr.func('g_irepository_find_by_gtype')), 'only %s searched by g_irepository_find_by_gtype' % sorted(searched))
     ri = gr.func('register_internal')
     clr = [c for c in C.calls(gr.body(ri), 'g_hash_table_remove_all') if 'unknown_gtypes' in gr.text_of(c)]
     if len(clr) != 1:
